@@ -339,7 +339,9 @@ func (h *c15Run) stepUpdateUser(r *RNG, p *c15Pool, step int) {
 		if a := h.ts.Acct.Get(string(recs[0].src)); a != nil {
 			prevHash, existed = a.Password, true
 			if recs[0].kind == "rename" && string(recs[0].src) != string(recs[0].dst) {
-				if d := h.ts.Acct.Get(string(recs[0].dst)); d != nil {
+				_, e1 := os.Stat(h.ts.Users + "/" + string(recs[0].src) + ".yaml")
+				_, e2 := os.Stat(h.ts.Users + "/" + string(recs[0].dst) + ".yaml")
+				if d := h.ts.Acct.Get(string(recs[0].dst)); d != nil && e1 == nil && e2 == nil {
 					ontoSrc, ontoDst = a, d
 				}
 			}
@@ -410,7 +412,7 @@ func init() {
 	props["C15"] = func(x *Ctx) {
 		x.rule = "histories of 20-40 protocol operations (new-user 350, set-user 353, batched update-user 349 with 1-4 sub-records mixing create/modify/rename/delete, delete-user 351, get-user 352, list-users 348, restart = swapping in a manager freshly loaded from the directory) over a pool of 4-7 logins, 4 names, 3-4 passwords drawn from arbitrary bytes that are legal file names (non-UTF-8, YAML look-alikes such as 123/true/~/null/<<, spaces, leading dashes, glob characters, LF/CR inside, lengths around NAME_MAX); after EVERY step: Authenticate for every login ever used with every password ever used with it, list-users reply, parsed directory, second manager. non-trivial = at least 3 state-changing requests succeeded; distinct = distinct token string of the history (oracle input)"
 		x.assume = []string{
-			"bcrypt: verify (hash p) q <-> p = q for passwords (as sent) of at most 72 bytes without a 0x00 byte (bcrypt repeats the NUL-terminated key cyclically: hash(\"\") also accepts the single byte 0x00)",
+			"bcrypt: verify (hash p) q <-> p = q for the generated passwords (as sent): at most 20 bytes, either free of 0x00 or one leading 0x00 followed by 1..4 non-zero bytes (bcrypt repeats the NUL-terminated key cyclically: hash(\"\") also accepts the single byte 0x00; the oracle's environment compares bcrypt keys)",
 			"gopkg.in/yaml.v3 round-trips every string except those containing LF whose first character is LF, TAB, U+2028 or U+2029 (excluded from the history generators by this rule; exercised by family yaml-unsafe-strings, known finding yaml-block-scalar-leading-whitespace)",
 			"the requesting administrator holds every account privilege and is not itself edited by the history (authorisation is C05/C06)",
 			"update-user sub-records are well-formed field lists (count + fields)",
